@@ -120,6 +120,13 @@ def fixed_pool_cases(profile):
                               'stop': 2, 'markers': True, 'check_cancel': True})
             cases.append({'backend': be, 'api': 'pf', 'n': 12, 'workers': 2, 'buffer': 2, 'delays': [20] * 12,
                           'stop': 1, 'markers': True, 'check_cancel': False})
+        elif profile == 'readahead':
+            for api, w, b in (('lpm', 2, 2), ('pm', 2, 3), ('pf', 1, 2)):
+                cases.append({'backend': be, 'api': api, 'n': 16, 'workers': w, 'buffer': b, 'delays': [2] * 16,
+                              'markers': True, 'readahead': True, 'pauses': 4})
+            if be in ('t', 'mp', 'dill_mp'):
+                cases.append({'backend': be, 'api': 'pf', 'n': 16, 'workers': 2, 'buffer': 2, 'delays': [2] * 16,
+                              'markers': True, 'readahead': True, 'pauses': 4, 'catch': True})
         elif profile == 'fault':
             cases.append({'backend': be, 'api': 'lpm', 'n': 5, 'workers': 2, 'buffer': 3, 'delays': [8, 0, 4, 0, 1],
                           'fn_fail': {'2': 'VErrB'}})
